@@ -84,24 +84,24 @@ Definition dec_redeemers : parser fparsed := fun bs =>
   let* t := cbor_type bs in
   if t =? 4 then
     let* '(ln, r) := rd_array bs in
-    let* '(xs, r') := dec_elems raw_item BrkErr (S (length r)) ln 0 r in Ok (PGen false (length xs), r')
+    let* '(xs, r') := dec_elems raw_item (S (length r)) ln 0 r in Ok (PGen false (length xs), r')
   else if t =? 5 then
     let* '(ln, r) := rd_map bs in
-    let* '(xs, r') := dec_elems pair_items BrkErr (S (length r)) ln 0 r in Ok (PGen false (length xs), r')
+    let* '(xs, r') := dec_elems pair_items (S (length r)) ln 0 r in Ok (PGen false (length xs), r')
   else Err.
 
 (* the value parser of witness-set key k (transaction_witnesses_set.rs:47-152) *)
 Definition dec_field (k : N) : parser fparsed := fun bs =>
-  if k =? 0 then                                   (* Vkeywitnesses: set tag skipped twice, assert on specials *)
-    let* '((t, _, ws), r) := dec_set dec_vkw BrkPanic true bs in Ok (PVk t (dedup_list vkw_eqb ws), r)
+  if k =? 0 then                                   (* Vkeywitnesses: set tag skipped twice *)
+    let* '((t, _, ws), r) := dec_set dec_vkw true bs in Ok (PVk t (dedup_list vkw_eqb ws), r)
   else if k =? 2 then
-    let* '((t, _, ws), r) := dec_set dec_bw BrkPanic false bs in Ok (PBw t (dedup_list bw_eqb ws), r)
+    let* '((t, _, ws), r) := dec_set dec_bw false bs in Ok (PBw t (dedup_list bw_eqb ws), r)
   else if k =? 1 then                              (* NativeScripts: elements generic *)
-    let* '(x, r) := dec_set raw_item BrkErr false bs in Ok (gen_of x, r)
+    let* '(x, r) := dec_set raw_item false bs in Ok (gen_of x, r)
   else if (k =? 3) || (k =? 6) || (k =? 7) then    (* PlutusScripts::deserialize_with_version: byte strings *)
-    let* '(x, r) := dec_set rd_bytes BrkErr false bs in Ok (gen_of x, r)
+    let* '(x, r) := dec_set rd_bytes false bs in Ok (gen_of x, r)
   else if k =? 4 then                              (* PlutusList of PlutusData *)
-    let* '(x, r) := dec_set (dec_pd (S (length bs))) BrkErr false bs in Ok (gen_of x, r)
+    let* '(x, r) := dec_set (dec_pd (S (length bs))) false bs in Ok (gen_of x, r)
   else if k =? 5 then dec_redeemers bs
   else Err.
 
@@ -342,15 +342,16 @@ Section Model.
     let* tx := mk_fixed bit bb w valid aux in
     Ok (tx, r4).
 
-  (* FixedTransaction::new / new_with_auxiliary / new_from_body_bytes: the byte arguments are kept whole
-     (TransactionBody::from_bytes etc. ignore trailing bytes) *)
+  (* FixedTransaction::new / new_with_auxiliary / new_from_body_bytes: the body and auxiliary-data arguments
+     are kept whole and must be exactly one item (deserialize_whole, /repo 5b2f744 + dea2b79); what follows
+     the witness-set argument is ignored (the witness set is re-assembled field by field anyway) *)
   Definition fixed_new (raw_body raw_wits : bytes) (valid : bool) (raw_aux : option bytes) : result fixed_tx :=
-    let* '(bit, _) := parse_one raw_body in
+    let* bit := parse_exact raw_body in
     let* '(w, _) := decode_wits raw_wits in
-    let* _ := match raw_aux with Some a => let* '(_, _) := parse_one a in Ok tt | None => Ok tt end in
+    let* _ := match raw_aux with Some a => let* _ := parse_exact a in Ok tt | None => Ok tt end in
     mk_fixed bit raw_body w valid raw_aux.
   Definition fixed_new_from_body (raw_body : bytes) : result fixed_tx :=
-    let* '(bit, _) := parse_one raw_body in
+    let* bit := parse_exact raw_body in                  (* deserialize_whole: nothing may follow (/repo 5b2f744) *)
     let* force := force_set_tag bit None in
     Ok {| ft_body := raw_body; ft_hash := H raw_body;
           ft_wits := {| w_fields := []; w_set_tags := force |}; ft_valid := true; ft_aux := None |}.
@@ -366,8 +367,9 @@ Section Model.
     | OSignVkey k => Ok (with_wits (add_vkey (sign_vkey k (ft_hash tx))) tx)
     | OSignIcarus k => Ok (with_wits (add_boot (sign_boot false k (ft_hash tx))) tx)
     | OSignDaedalus k => Ok (with_wits (add_boot (sign_boot true k (ft_hash tx))) tx)
-    | OSetBody b =>                                    (* as of /repo be1619f the hash follows the body *)
-      let* '(_, _) := parse_one b in
+    | OSetBody b =>                                    (* as of /repo be1619f the hash follows the body;
+                                                          deserialize_whole: nothing may follow (5b2f744) *)
+      let* _ := parse_exact b in
       Ok {| ft_body := b; ft_hash := H b; ft_wits := ft_wits tx; ft_valid := ft_valid tx; ft_aux := ft_aux tx |}
     | OSetWits b =>                                    (* FixedTxWitnessesSet::from_bytes: set tags flag back to true *)
       let* '(w, _) := decode_wits b in
@@ -375,7 +377,7 @@ Section Model.
     | OSetValid v =>
       Ok {| ft_body := ft_body tx; ft_hash := ft_hash tx; ft_wits := ft_wits tx; ft_valid := v; ft_aux := ft_aux tx |}
     | OSetAux b =>
-      let* '(_, _) := parse_one b in
+      let* _ := parse_exact b in
       Ok {| ft_body := ft_body tx; ft_hash := ft_hash tx; ft_wits := ft_wits tx; ft_valid := ft_valid tx; ft_aux := Some b |}
     end.
 
@@ -388,7 +390,7 @@ Section Model.
   Definition step_old (tx : fixed_tx) (o : op) : fixed_tx :=
     match o with
     | OSetBody b =>
-      match parse_one b with
+      match parse_exact b with
       | Ok _ => {| ft_body := b; ft_hash := ft_hash tx; ft_wits := ft_wits tx; ft_valid := ft_valid tx; ft_aux := ft_aux tx |}
       | _ => tx
       end
@@ -526,8 +528,8 @@ Record obs := {
   o_aux : option bytes;      (* raw_auxiliary_data *)
   o_wits : bytes;            (* raw_witness_set *)
   o_tx : bytes;              (* to_bytes *)
-  o_hash : bytes;            (* transaction_hash *)
-  o_hash_of_body : bytes     (* Blake2b-256 of raw_body, computed outside the library *)
+  o_hash_pre : option bytes  (* bytes whose Blake2b-256 (computed outside the library) is transaction_hash,
+                                searched among the current raw_body and the body slices seen so far *)
 }.
 
 Inductive verdict := VHolds | VNa | VFails.
@@ -556,19 +558,56 @@ Definition judge (input : bytes) (ops : list (op * bool)) (o : obs) : verdict :=
            && forallb (fun kv => (fst kv <=? 7)) es
            && bytes_eqb (o_tx o)
                 ([132] ++ sp_body st ++ o_wits o ++ enc_valid (sp_valid st) ++ enc_aux (sp_aux st))
-           && bytes_eqb (o_hash o) (o_hash_of_body o)
+           && match o_hash_pre o with Some p => bytes_eqb p (sp_body st) | None => false end
         then VHolds else VFails
       | _ => VFails
       end
     end
   end.
 
-(* a datum: from_bytes, to_bytes and the hash preimage *)
-Definition judge_datum (input : bytes) (to_bytes hash hash_of_input_slice : bytes) (consumed : bytes) : verdict :=
-  match skip_item input with
-  | Ok (pre, _) =>
-    if bytes_eqb pre consumed then
-      if bytes_eqb to_bytes pre && bytes_eqb hash hash_of_input_slice then VHolds else VFails
-    else VNa
-  | _ => VNa
+(* domain guard of the judge: the generic reading of the input coincides with the library-mirroring one
+   (always the case for well-formed CBOR; inputs on which the library's collection loops accept a break
+   inside a definite array etc. are outside the judge's domain and reported `na`) *)
+Definition opt_bytes_eqb (a b : option bytes) : bool :=
+  match a, b with Some x, Some y => bytes_eqb x y | None, None => true | _, _ => false end.
+Definition field_slices (w : wits) : list (N * bytes) :=
+  flat_map (fun kf => match f_raw (snd kf) with Some r => [(fst kf, r)] | None => [] end) (w_fields w).
+Definition slices_eqb (a b : list (N * bytes)) : bool :=
+  list_eqb (fun x y => (fst x =? fst y) && bytes_eqb (snd x) (snd y)) a b.
+Definition same_reading (input : bytes) : bool :=
+  match decode_fixed (fun b => b) input, spec_slices input with
+  | Ok (tx, _), Some s =>
+      bytes_eqb (ft_body tx) (sp_body s) && opt_bytes_eqb (ft_aux tx) (sp_aux s)
+      && Bool.eqb (ft_valid tx) (sp_valid s) && slices_eqb (field_slices (ft_wits tx)) (sp_fields s)
+  | _, _ => false
   end.
+
+(* a datum: what PlutusData::from_bytes(input).to_bytes() returned and the bytes whose Blake2b-256 is
+   hash_plutus_data: the datum is a non-empty prefix of the input, and the hash is taken over it *)
+Fixpoint is_prefix (a b : bytes) : bool :=
+  match a, b with
+  | [], _ => true
+  | x :: a', y :: b' => (x =? y) && is_prefix a' b'
+  | _ :: _, [] => false
+  end.
+Definition judge_datum (input to_bytes : bytes) (hash_pre : option bytes) : verdict :=
+  match to_bytes with
+  | [] => VFails
+  | _ :: _ =>
+    if is_prefix to_bytes input
+       && match hash_pre with Some p => bytes_eqb p to_bytes | None => false end
+    then VHolds else VFails
+  end.
+
+(* PlutusList::from_bytes(..).to_bytes(): the list head is re-written (definite as decoded, no set tag), every
+   element is its original bytes *)
+Section Reencode.
+  Variable fresh : pdk -> bytes.
+  Definition reencode_plist (x : bool * bool * list pd) : bytes :=
+    match x with (_, definite, xs) =>
+      if definite then encode_head 4 (len xs) ++ flat_map (encode_pd fresh) xs
+      else [159] ++ flat_map (encode_pd fresh) xs ++ [255]
+    end.
+End Reencode.
+Definition decode_plist (bs : bytes) : result (bool * bool * list pd * bytes) :=
+  dec_plist (dec_pd (S (length bs))) bs.
